@@ -50,6 +50,7 @@ def run(ctx):
             for perm in perms:
                 cases.append((fabric, regime, perm, loc, quick))
     scale_invariance(ctx)
+    guard_invariance(ctx)
     parallel_cases(ctx, case, cases)
     ctx.floor("C04.lie.df", len(cases) * 3)
     ctx.floor("C04.lie.dA", len(cases) * 3)
@@ -122,6 +123,95 @@ def scale_invariance(ctx):
                 return (False if v == "differ" else "inconclusive"), f"D_{k + 1}({short(s, 100)}) = {short(d, 120)}: the scale depends on the reference frame"
             ctx.check("C04.scale", f"{name}:J{k + 1}", f, mloc)
     ctx.floor("C04.scale", 12)
+
+
+def guard_invariance(ctx):
+    """A piecewise-defined right-hand side is frame indifferent only if the boundaries between its pieces are: every data-dependent branch
+    condition met while eval_rhs is evaluated (its own and those of the helpers it calls, the rate kernel excepted: its guards are
+    invariants by C04.lie) must compare rotation invariants, i.e. the compared quantities have zero Lie derivative under
+    L -> Q L Q^T, F -> Q F, A_g -> A_g Q^T."""
+    from . import driver
+    from ..values import Guard
+    ctx.rule("C04.guards", "every data-dependent branch condition evaluated inside eval_rhs compares quantities with zero Lie derivative under L -> Q·L·Q^T, "
+                           "F -> Q·F, A_g -> A_g·Q^T (the pieces of a piecewise right-hand side are separated by frame-invariant boundaries)")
+    mloc = ctx.program.loc(ctx.program.module("pydrex.minerals"), ctx.program.require_method("pydrex.minerals.Mineral", "update_orientations")) + " (eval_rhs)"
+    N = 2
+    R = driver.run_update(ctx, N=N)
+    if R.exc is not None or not R.rhs_calls:
+        ctx.ob("C04.guards", "eval_rhs", False, f"update raised {R.exc!r}", mloc)
+        return
+    t, y, res = R.rhs_calls[0]
+    Lm = R.Lfun.fn(R.I, t, R.xfun.fn(R.I, t))
+    F = y[:9].reshape(3, 3)
+    A = y[9:9 + 9 * N].reshape(N, 3, 3)
+    leaves = []
+
+    def collect(g, where):
+        if isinstance(g, Guard):
+            g = g.astuple()
+        acc = []
+        alg._guard_leaves(g, acc)
+        if isinstance(g, tuple) and len(g) > 2 and g[1] == "cmp" and g[2] == "between":
+            acc.append(("between", lift(g[3]), ZERO))
+        if isinstance(g, tuple) and len(g) > 2 and g[1] == "all" and g[2] == "eqzero":
+            for x in g[3]:
+                acc.append(("Eq", lift(x), ZERO))
+        for op, x, y_ in acc:
+            leaves.append((op, x, y_, where))
+            for sub in alg.select_guards(x - y_):       # conditions nested inside the compared quantities (counts of cells that ..., etc.)
+                collect(sub, where)
+    for g, outcome, gl, fn in R.rhs_conditions[0][0] + R.rhs_conditions[0][1]:
+        collect(g, gl)
+    seen = set()
+    n = 0
+    for k, J in enumerate(generators()):
+        datom = {}
+        dL = J @ Lm - Lm @ J
+        dF = J @ F
+        for i in range(3):
+            for j in range(3):
+                (a,) = alg.atoms_of(Lm[i, j])
+                datom[a] = dL[i, j]
+                (a,) = alg.atoms_of(F[i, j])
+                datom[a] = dF[i, j]
+                for g_ in range(N):
+                    (a,) = alg.atoms_of(A[g_, i, j])
+                    datom[a] = (A[g_] @ J.T)[i, j]
+        datom["__support__"] = {a for a in datom if not isinstance(a, str)}
+        for op, x, y_, where in leaves:
+            d = lift(x) - lift(y_)
+            key = (k, where, d.key())
+            if key in seen or not d.t or d.is_const():
+                continue
+            seen.add(key)
+            dat = dict(datom)
+            for a in alg.atoms_of(d, deep=True):
+                if a.kind == "fn:eigvalsh":
+                    tri = a.args[0]
+                    Mx = np.empty((3, 3), dtype=object)
+                    q = 0
+                    for i in range(3):
+                        for j in range(i + 1):
+                            Mx[i, j] = Mx[j, i] = tri[q]
+                            q += 1
+                    if all(alg.decide(alg.derive(lift(Mx[i, j]), datom, {}), (J @ Mx - Mx @ J)[i, j])[0] == "equal" for i in range(3) for j in range(3)):
+                        dat[a] = ZERO
+
+            def f(d=d, dat=dat, op=op, k=k):
+                bad = 0
+                for seed in (1, 2, 3):
+                    v0, d0 = alg.evald(d, dat, seed)
+                    if d0 != d0:
+                        return "inconclusive", f"Lie derivative of {short(d, 80)} could not be evaluated (uninterpreted function of frame-dependent arguments)"
+                    if abs(d0) > 1e-7 * max(1.0, abs(v0)):
+                        bad += 1
+                if bad >= 2:
+                    return False, f"branch condition ({op}) on {short(d, 100)} has Lie derivative D_{k + 1} != 0: it depends on the reference frame"
+                return True, ""
+            n += 1
+            ctx.check("C04.guards", f"condition {n // 3 + 1 if False else len([1 for kk in seen if kk[0] == k])} at {where}:{op}:J{k + 1}", f, where)
+    ctx.count("branch_conditions_in_eval_rhs", n // 3)
+    ctx.floor("C04.guards", 3)
 
 
 def case(ctx, c):
